@@ -96,7 +96,7 @@ pub fn spec(id: &str) -> Option<CheckSpec> {
                 gen: g,
                 audits: a,
                 twin: Twin::None,
-                cases_quick: 6000,
+                cases_quick: 12000,
                 cases_thorough: 60000,
                 ops_quick: 90,
                 ops_thorough: 250,
@@ -126,7 +126,7 @@ pub fn spec(id: &str) -> Option<CheckSpec> {
                 gen: g,
                 audits: a,
                 twin: Twin::None,
-                cases_quick: 12000,
+                cases_quick: 24000,
                 cases_thorough: 120000,
                 ops_quick: 90,
                 ops_thorough: 200,
@@ -161,7 +161,7 @@ pub fn spec(id: &str) -> Option<CheckSpec> {
                 gen: g,
                 audits: a,
                 twin: Twin::None,
-                cases_quick: 8000,
+                cases_quick: 12000,
                 cases_thorough: 80000,
                 ops_quick: 80,
                 ops_thorough: 250,
@@ -192,7 +192,7 @@ pub fn spec(id: &str) -> Option<CheckSpec> {
                 gen: g,
                 audits: a,
                 twin: Twin::None,
-                cases_quick: 10000,
+                cases_quick: 24000,
                 cases_thorough: 100000,
                 ops_quick: 100,
                 ops_thorough: 300,
@@ -220,7 +220,7 @@ pub fn spec(id: &str) -> Option<CheckSpec> {
                 gen: g,
                 audits: a,
                 twin: Twin::None,
-                cases_quick: 12000,
+                cases_quick: 24000,
                 cases_thorough: 120000,
                 ops_quick: 100,
                 ops_thorough: 300,
@@ -281,7 +281,7 @@ pub fn spec(id: &str) -> Option<CheckSpec> {
                 gen: g,
                 audits: a,
                 twin: Twin::None,
-                cases_quick: 8000,
+                cases_quick: 20000,
                 cases_thorough: 80000,
                 ops_quick: 80,
                 ops_thorough: 250,
@@ -310,7 +310,7 @@ pub fn spec(id: &str) -> Option<CheckSpec> {
                 gen: g,
                 audits: a,
                 twin: Twin::None,
-                cases_quick: 10000,
+                cases_quick: 20000,
                 cases_thorough: 100000,
                 ops_quick: 100,
                 ops_thorough: 300,
@@ -387,7 +387,7 @@ pub fn spec(id: &str) -> Option<CheckSpec> {
                 gen: g,
                 audits: a,
                 twin: Twin::None,
-                cases_quick: 8000,
+                cases_quick: 16000,
                 cases_thorough: 80000,
                 ops_quick: 90,
                 ops_thorough: 250,
@@ -504,7 +504,7 @@ pub fn spec(id: &str) -> Option<CheckSpec> {
                 gen: g,
                 audits: a,
                 twin: Twin::None,
-                cases_quick: 8000,
+                cases_quick: 12000,
                 cases_thorough: 80000,
                 ops_quick: 80,
                 ops_thorough: 250,
